@@ -80,8 +80,15 @@ def expected_case_rule(role, inp, out):
     conds = []
     n = len(inp)
     if role == 'title':
-        # hyphens removed, first character upper case
+        # hyphens removed (not replaced): the name is shorter by the number of hyphens, and an underscore occurs only in the
+        # two-character escape prefix `R_` of a keyword (ASN.1 names have no underscore)
         conds.append(z3.And([to_bv(c, 32) != 45 for c in out]))
+        h = z3.Sum([z3.If(to_bv(c, 32) == 45, 1, 0) for c in inp])
+        plain = z3.And([h == n - len(out)] + [to_bv(c, 32) != 95 for c in out])
+        escaped = z3.BoolVal(False)
+        if len(out) >= 3:
+            escaped = z3.And([h == n - (len(out) - 2), to_bv(out[0], 32) == 82, to_bv(out[1], 32) == 95] + [to_bv(c, 32) != 95 for c in out[2:]])
+        conds.append(z3.Or(plain, escaped))
     else:
         conds.append(z3.And([to_bv(c, 32) != 45 for c in out]))
     if role == 'snake':
@@ -223,6 +230,13 @@ def judge_text(items, info, chk, pc, nwarn):
     t = target[2:] if target.startswith('r#') else target
     if not target.startswith('r#') and not is_legal_py(t):
         fails.append(('illegal', f"generated identifier {target!r} is not a legal non-keyword Rust identifier"))
+    if role == 'title' or role.startswith('title:'):
+        # hyphens are removed, not replaced: an underscore occurs only in the escape prefix `R_` of a keyword
+        h = name.count('-')
+        plain = '_' not in t and len(t) == len(name) - h
+        escaped = t.startswith('R_') and '_' not in t[2:] and len(t) == len(name) - h + 2 and t[2:] in KEYWORDS
+        if not (plain or escaped):
+            fails.append(('case-rule', f"type name {name!r} becomes {target!r}: the hyphens are not removed"))
     if attrs is not None and target != name:
         ann = ident_annotation(attrs)
         if ann != name:
@@ -254,7 +268,7 @@ def confirm_text(chk, role, name, sig, what):
 
 def text_shapes(tier):
     out = []
-    names = list(KEYWORDS) + ['a-b', 'aB', 'a1B', 'ab-Cd', 'x-1', 'r-self', 'macro-rules', 'union', 'a-b-c', 'abC-d', 'aBC', 'z9']
+    names = list(KEYWORDS) + ['a-b', 'aB', 'a1B', 'ab-Cd', 'x-1', 'r-self', 'macro-rules', 'union', 'a-b-c', 'abC-d', 'aBC', 'z9', 'r-type', 'r-1', 'r-self', 's-elf']
     for role in ('snake', 'const', 'enum', 'alt', 'title', 'module', 'namednumber'):
         for nm in names:
             n = nm
